@@ -113,6 +113,30 @@ func (mgr *bindingManager) create(addr net.Addr) *binding {
 	return b
 }
 
+// findOrCreate returns the binding of addr, creating it if there is none. Doing both under
+// one lock keeps concurrent writers to a new peer from creating two bindings (and two
+// channel numbers) for it.
+func (mgr *bindingManager) findOrCreate(addr net.Addr) *binding {
+	mgr.mutex.Lock()
+	defer mgr.mutex.Unlock()
+
+	if b, ok := mgr.addrMap[addr.String()]; ok {
+		return b
+	}
+
+	b := &binding{
+		number:       mgr.assignChannelNumber(),
+		addr:         addr,
+		mgr:          mgr,
+		_refreshedAt: time.Now(),
+	}
+
+	mgr.chanMap[b.number] = b
+	mgr.addrMap[b.addr.String()] = b
+
+	return b
+}
+
 func (mgr *bindingManager) findByAddr(addr net.Addr) (*binding, bool) {
 	mgr.mutex.RLock()
 	defer mgr.mutex.RUnlock()
